@@ -54,6 +54,26 @@ CLAIMED = {
              text="Program text cannot be a solver variable (the macros work through __LINE__/switch), so programs are enumerated by a generator (10 fixed shapes naming each clause of the statement + seeded random ASTs); for each program the solver covers EVERY data-dependent path: the log of effects and return codes from invoking the real-macro body until exit must equal one run of the direct-style twin on the same symbolic tape.",
              note="Trusted: vt/ptgen.py's direct-style emission as the meaning of 'sequential program cut at blocking points'; cbmc 6.11 + minisat. The quantifier over programs is sampled, not exhausted - stated in the evidence.",
              ref="C08"),
+ "C01": dict(technique="one-step refinement of the real scheduler against a reference model from an ARBITRARY valid kernel state (cbmc, SAT), one query per API call kind; plus bounded histories from reset",
+             text="fibre.c is included into the harness so the static kernel can be given any valid contents: run queue / sleepers / pending interrupt-context requests (up to the full 8 in the thorough tier), current fibre, last result, resume tokens, stale tails. One real fibre_run / fibre_run_atomic / fibre_kill / fibre_scheduler_next (with a symbolic body script of nested API calls) must produce the model's dispatch decision, results and post-state; the invariant is re-established, so histories of any length over 3 fibres are covered.",
+             note="Trusted: cbmc 6.11 + minisat; the 60-line model in harness/c01.c written from the property text; start states up to renaming of fibres. Bounds: 3 fibres, <=3 (thorough 8) pending atomic requests, <=1 nested call per dispatch.",
+             ref="C01"),
+ "C02": dict(technique="same one-step refinement harness with timers on: time base T0 fully symbolic (all 2^32 placements incl. both wrap windows), due offsets and pass advances symbolic; model keeps mathematical offsets, code uses 32-bit cyclic arithmetic",
+             text="fibre_timeout's result, no early wake-up, first-pass-at-or-after-due wake-up, due-then-registration order and timer cancellation by run/kill are asserted through the model comparison for one call from any valid state; because T0 ranges over all 32-bit values the wrap through 0 and through 0x80000000 is covered symbolically, not sampled.",
+             note="Trusted: as C01. The pass-step queries use 2 fibres in the quick tier (3 in thorough, which needs up to 2 h); offsets bounded by 2^20 (time base unrestricted).",
+             ref="C02"),
+ "C03": dict(technique="same harness, assertion group WAKEUP: value returned by fibre_scheduler_next vs the model, one pass from any valid state (sequential part)",
+             text="For one pass from an arbitrary valid state with every kind of nested call in the body, the returned wake-up time must be t when anything is runnable or a request is undrained or the body yielded, else the earliest pending due time (cyclically after t), else t + FIBRE_UNBOUNDED_SLEEP. The interrupt-placement part is covered by C06's shim harness (return value asserted at every placement).",
+             note="Trusted: as C01/C02. Interrupt placements: atomic operations of the pass only (shim <stdatomic.h>), non-nested handlers; nesting is delegated to C04 (composition, DESIGN.md).",
+             ref="C03"),
+ "C04": dict(technique="source-level interrupt-discipline harness: real messageq.c compiled with a shim <stdatomic.h> whose operations call a hook that may run nested sender/receiver handlers at symbolic positions (cbmc, SAT); thorough adds IR step machines (ir2c) with a symbolic schedule incl. free preemption",
+             text="Every placement of up to 3 complete sender handlers, nested to depth 2, before any atomic operation of the receiver's or another sender's code, on queues of depth 1..2 that may already be full: ghost ownership (no double hand-out, claim order, contents, exactly-once), failure only when no buffer was free at some instant during the call, free count at quiescence.",
+             note="Trusted: the shim's one-core SC model; cbmc 6.11 + minisat. Free preemption is only reached by the thorough tier's step-machine queries (2 senders + receiver, depth 1).",
+             ref="C04", engine="E2-ir2c + shim"),
+ "C05": dict(technique="clang-14 LLVM IR of the real ringbuf.c -> step machines (vt/ir2c.py, one shared-memory access per step) -> cbmc with a SYMBOLIC schedule array (kissat)",
+             text="The solver chooses the interleaving of producer and consumer at the granularity of individual shared accesses, for free preemption and for either side as a run-to-completion interrupt handler, with buffer length, start index, byte values and operation counts symbolic; ghost begin/end events give the prefix/exactly-once/in-order oracle and the 'full/empty at some instant during the call' clauses; an allocation red zone decides 'no access outside buf_len bytes'.",
+             note="Trusted: clang-14 IR as the meaning of ringbuf.c, vt/ir2c.py, cbmc 6.11 + kissat. Sequentially consistent interleavings only (C07 argues the rest). Quick: 2+2 operations; thorough: 3+3.",
+             ref="C05", engine="E2-ir2c + shim"),
 }
 NA = {}
 
@@ -82,6 +102,8 @@ m = {
  "engines": [
    {"name": "E1-cbmc", "path": "vt/core.py", "serves_properties": [i for i in ids if i in CLAIMED and CLAIMED[i].get("engine", "E1-cbmc") == "E1-cbmc"],
     "kind_free_text": "goto-cc + cbmc 6.11 bounded symbolic execution of the real C translation units, harnesses in harness/, SAT back ends minisat/kissat; counterexamples replayed natively (gcc, ASan+UBSan)"},
+   {"name": "E2-ir2c + shim", "path": "vt/ir2c.py", "serves_properties": ["C04", "C05", "C06", "C07", "C18"],
+    "kind_free_text": "clang-14 LLVM IR of the real units -> C step machines (one shared access per step) or plain dispatch-loop functions -> cbmc with a symbolic schedule; plus harness/shim/stdatomic.h for source-level interrupt placement"},
    {"name": "E3-ir2smt", "path": "vt/ir2smt.py", "serves_properties": ["C17"],
     "kind_free_text": "clang-14 LLVM IR of a loop-free integer kernel -> SMT-LIB (Int, explicit mod 2^k, interval-guided quotient/remainder variables) -> z3 5.1"},
  ],
